@@ -473,9 +473,15 @@ func (r *h2run) lease() *h2fail {
 			r.class("overflow-opened-connection")
 			if fresh.open {
 				r.cur = fresh
+			} else {
+				// accepted and reset at once: the pool learns of it asynchronously
+				if f := r.closeAck(); f != nil {
+					return f
+				}
+				r.unordered = true
 			}
 		}
-		return r.afterLease(false)
+		return r.afterLease(true)
 	case res.Reason == types.ConnectionFailure:
 		if r.mode == pool.ModeAccept || !(needNew || maybeNew) {
 			return &h2fail{sig: sigH2ConnFail, step: r.step, again: true, msg: fmt.Sprintf("lease %s answered ConnectionFailure; upstream mode %d, pool connection %s", tok, r.mode, r.connsString())}
@@ -838,13 +844,14 @@ func (r *h2run) doOp(op H2Op) *h2fail {
 		if len(cand) == 0 {
 			return nil
 		}
-		return r.upClose(cand[pick(len(cand))], op.K == "uptcprst")
+		return r.upClose(cand[pick(len(cand))], op.K == "uptcprst" || op.A%2 == 1) // (FIN leaves a TIME_WAIT socket: only half of them)
 	case "close-old":
 		cand := r.openConns(func(c *h2conn) bool { return c.replaced })
 		if len(cand) == 0 {
 			return nil
 		}
-		return r.upClose(cand[pick(len(cand))], op.A%3 == 2)
+		// mostly TCP reset: a FIN from the upstream leaves a TIME_WAIT socket behind, and the machine is shared
+		return r.upClose(cand[pick(len(cand))], op.A%3 != 0)
 	case "refuse", "refuse-rst", "accept":
 		m := map[string]int{"refuse": pool.ModeNoListen, "refuse-rst": pool.ModeRST, "accept": pool.ModeAccept}[op.K]
 		if m == pool.ModeNoListen && !r.rig.Up.CanRefuse() {
@@ -894,8 +901,18 @@ func (r *h2run) finish() *h2fail {
 	}
 	r.step++
 	before := len(r.strs)
-	if f := r.lease(); f != nil {
-		return f
+	for try := 0; ; try++ {
+		before = len(r.strs)
+		if f := r.lease(); f != nil {
+			return f
+		}
+		// a lease can land on a connection whose close the pool is still processing (the proxy retries
+		// such a request): only a lease that keeps failing is judged
+		if len(r.strs) > before && r.strs[before].state == h2Failed && try < 3 {
+			r.class("capacity-lease-retried")
+			continue
+		}
+		break
 	}
 	if len(r.strs) == before || r.strs[before].state != h2Active {
 		return r.hard("h2/capacity-not-freed:lease-after-all-leases-ended-failed", "every lease has ended and the upstream accepts connections, yet a new lease was not admitted / did not reach the upstream (%s)", r.connsString())
@@ -905,11 +922,11 @@ func (r *h2run) finish() *h2fail {
 		return f
 	}
 	r.step++
-	for _, c := range r.openConns(func(c *h2conn) bool { return c.goaway }) {
+	for i, c := range r.openConns(func(c *h2conn) bool { return c.goaway }) {
 		if c.replaced {
 			r.class("goaway-conn-left-to-peer")
 		}
-		if f := r.upClose(c, false); f != nil {
+		if f := r.upClose(c, !(i == 0 && r.h.Drain == 0)); f != nil { // FIN once in a while, else reset (no TIME_WAIT)
 			return f
 		}
 	}
